@@ -157,6 +157,40 @@ CHECKS = {
          "implementation. timeout_seconds = 0 means no timeout by design.",
     technique="Coq proof of the truncation/attempt-count logic + fault-injection observation of timing (partial)",
     design="5/C05"),
+ "C06": dict(
+    text="PARTIAL. Proved: render_total (every tree/width/state has a result: the rendering model is total), superscript_nat_ok / "
+         "superscript_negative, hr_clamped, outside_opens_nothing (the repaired panic sites are unreachable or clamped), "
+         "render_size_refuted (no polynomial size bound: from depth 4 each further blockquote level at width 3 more than doubles the "
+         "line count). Observed: every Tangible method of items built from (mis)shaped JSON at widths -10..300 and link numbers over Z, "
+         "and Markup.Render of nested documents, under a per-case watchdog: panic, > 5 s or > 200x output blow-up is a violation.",
+    note="KNOWN FINDING C06/indent-depth-exceeds-width. Item-level rendering (pub String/Preview) has no Coq model of its own: its "
+         "pieces (markup renderers, style, ansi) do; cost is observed not proved.",
+    technique="Coq proof of totality/clamping lemmas + refutation witness; fault-style observation of panics/hangs (partial)",
+    design="5/C06"),
+ "C07": dict(
+    text="Proof: reachable_inv (the UI invariant holds in EVERY state reachable by keys over all 256 byte values, resizes and "
+         "completions of ANY pending background task, in any order), view_no_panic (no lookup outside the feed, no Current on an "
+         "empty history in any such state), and the keymap as per-key theorems: loading_ignores_keys, esc_cancels, "
+         "colon_enters_command, command_types, digit_selects/appends, history_keys (= the C18 History model), move_down/up/"
+         "center_key, space_opens, space_keeps_pages. Tie: the real ui.State driven key by key (incl. held loaders, resizes, arbitrary "
+         "bytes) over synthetic worlds; after every key mode, buffer, page, highlighted item, loaded window, loader flags, frame "
+         "count and frame height equal Ui.update/run_task; exhaustive short sequences.",
+    note="PARTIAL in one respect: the single refinement theorem to an abstract keymap over fully-known threads (window coverage after "
+         "settling) is replaced by the invariant + per-key theorems + correspondence. c/r/a/o/p/b need pub's concrete types and are "
+         "no-ops on the synthetic items.",
+    technique="Coq proof (inductive invariant over a transition system with pending tasks; per-key lemmas) + differential correspondence on key histories",
+    design="5/C07"),
+ "C08": dict(
+    text="PARTIAL. Translation validation + proof: tools/xlate regenerates a Conc.program from the CURRENT ui/ui.go on every run; Coq "
+         "re-decides lock_check and calls_terminate on it by vm_compute and instantiates the general theorems check_sound, go_sound, "
+         "safety (every state access and frame by the mutex owner, no self-lock, mutual exclusion) and progress (no deadlock while "
+         "commands succeed) as ui_safety / ui_progress for ALL interleavings. Observation: stress runs of the real ui.State (one "
+         "goroutine per key, resize poller, loaders with latency) with a TryLock probe in the output callback, an overlap detector and "
+         "a progress watchdog; thorough adds the Go race detector.",
+    note="Outside: Go's memory model/scheduler; the ownership protocol of page.frontier/children/basepoint; pub/splicer fan-outs (race "
+         "detector only). The translator (Go, syntactic, fails closed on anything unclassified) is part of the trusted base.",
+    technique="Go-AST-to-Coq translation re-run every check + reflective checker with soundness proof (trace semantics, all interleavings) + stress observation",
+    design="5/C08"),
 }
 PENDING_REASON = "check not built yet in this session (work in progress; planned in DESIGN.md section 5)"
 
